@@ -208,7 +208,10 @@ func (r *FnRun) bitopInt(st *State, op token.Token, x, y Term, rt types.Type) Va
 			}
 		}
 	}
-	res := r.fresh("bitop", SInt)
+	// a deterministic but otherwise unknown function of the operands
+	fname := "uf_b" + map[token.Token]string{token.AND: "and", token.OR: "or", token.XOR: "xor", token.AND_NOT: "andnot"}[op]
+	r.declareFun(fname, []Sort{SInt, SInt}, SInt)
+	res := r.define("bitop", App(fname, SInt, x, y))
 	r.assumeRange(nil, res, rt)
 	if isUnsigned(rt) {
 		switch op {
